@@ -489,57 +489,14 @@ def run(case):
 
 def extra_campaign(tier, seed, stats, known_open):
     """Coverage-guided atheris campaign on the reader (structured + raw text); results merged into the run's statistics."""
-    import json
-    import shutil
-    import subprocess
-    import sys
-    import tempfile
-
-    verif = os.path.dirname(os.path.dirname(os.path.abspath(__file__)))
-    script = os.path.join(verif, "fuzz", "c02_star_fuzz.py")
-    if not os.path.isdir(os.path.join(verif, ".deps", "atheris")):
-        subprocess.run(["bash", os.path.join(verif, "setup.sh")], stdout=subprocess.DEVNULL, stderr=subprocess.DEVNULL)
-    if not os.path.isdir(os.path.join(verif, ".deps", "atheris")):
-        return {"fuzz_campaign": "skipped: atheris could not be installed from the offline wheelhouse"}
-    runs = 4000 if tier == "quick" else 150000
-    secs = 25 if tier == "quick" else 300
-    work = tempfile.mkdtemp(prefix="c02fuzzrun_")
-    corpus = os.path.join(work, "corpus")
-    os.makedirs(corpus)
-    # seed corpus: the repository's small STAR files as raw-mode inputs (mode byte 0 + text), plus the empty corpus behaviour of libFuzzer
     import glob
 
-    from vlib import env
+    from vlib import env, fuzzrun
 
-    n_seed = 0
+    # seed corpus: the repository's small STAR files as raw-mode inputs (text + mode byte 0), plus libFuzzer's empty-corpus behaviour
+    seeds = []
     for f in sorted(glob.glob(os.path.join(env.repo_path(), "tests", "test_data", "**", "*.star"), recursive=True)):
         if os.path.getsize(f) < 3000:
-            raw = open(f, "rb").read()
-            with open(os.path.join(corpus, "seed_%d" % n_seed), "wb") as g:
-                g.write(raw.replace(b"\r", b"") + b"\x00")  # FuzzedDataProvider takes integers from the end: last byte = mode
-            n_seed += 1
-    findings = os.path.join(work, "findings")
-    cmd = [sys.executable, "-W", "ignore", script, findings, corpus, f"-runs={runs}", f"-seed={max(1, int(seed))}", "-max_len=2600", "-timeout=20",
-           f"-max_total_time={secs}", "-print_final_stats=1", "-verbosity=0"]
-    p = subprocess.run(cmd, stdout=subprocess.PIPE, stderr=subprocess.STDOUT, text=True, env=dict(os.environ, PYTHONPATH=os.path.join(verif, ".deps"), TMPDIR=work))  # the target's scratch directory lives (and dies) inside work
-    info = {"fuzz_campaign": "atheris/libFuzzer on cryocat.starfileio (structured + raw text)", "fuzz_runs_requested": runs, "fuzz_seed_corpus_files": n_seed}
-    try:
-        st_ = json.load(open(os.path.join(findings, "stats.json")))
-        info.update({"fuzz_" + k: v for k, v in st_.items()})
-        stats.evaluations += int(st_.get("execs", 0))
-    except Exception:
-        info["fuzz_stats"] = "unavailable"
-    cov = [l for l in p.stdout.splitlines() if "cov:" in l]
-    if cov:
-        info["fuzz_last_status_line"] = cov[-1][:200]
-    for f in sorted(glob.glob(os.path.join(findings, "fuzz-*.json"))):
-        rec = json.load(open(f))
-        sig = rec["signature"]
-        if sig in known_open:
-            stats.excluded_known[sig] = stats.excluded_known.get(sig, 0) + 1
-            continue
-        stats.buckets[sig] = {"case": rec["case"], "detail": rec["detail"], "count": 1, "shrunk": False}
-    if p.returncode not in (0, 1) and not glob.glob(os.path.join(findings, "fuzz-*.json")) and "stats.json" not in os.listdir(findings if os.path.isdir(findings) else work):
-        info["fuzz_campaign"] += " - did not start: " + p.stdout[-300:]
-    shutil.rmtree(work, ignore_errors=True)
-    return info
+            seeds.append(open(f, "rb").read().replace(b"\r", b"") + b"\x00")  # FuzzedDataProvider takes integers from the end: last byte = mode
+    return fuzzrun.campaign("c02_star_fuzz.py", "atheris/libFuzzer on cryocat.starfileio (structured + raw text)", seeds, stats, known_open,
+                            runs=4000 if tier == "quick" else 150000, seconds=25 if tier == "quick" else 300, seed=seed, max_len=2600)
